@@ -9,6 +9,7 @@ include!("repo_mods.rs");
 pub mod devtools;
 pub mod driver;
 pub mod lexglue;
+pub mod pinned_lsp;
 pub mod pinned_triage;
 pub mod props;
 pub mod session;
